@@ -28,7 +28,7 @@ PROPS["C11"].update({
 NOT_APPLICABLE = {}
 
 # verif-guarded hook commits in /repo (add-only)
-HOOK_COMMITS = ["fd0e965", "d11cf72", "46739fb", "981ad0e", "643526d"]
+HOOK_COMMITS = ["fd0e965", "d11cf72", "46739fb", "981ad0e", "643526d", "e05858a"]
 
 PROPS["C09"] = {
     "modules": ["OxiaVerif.Props.C09", "OxiaVerif.Props.C09OnTree"],
@@ -142,4 +142,19 @@ PROPS["C18"] = {
     "level_note": "Trusted: Lean kernel; extractor rules (assignment filter, GenerateShards shape); harness + driver; hash function as a parameter. Known findings: D-19 (>65536 shards), D-20 (failed ensemble selection leaves a hole).",
     "technique": "Lean 4 proof (division arithmetic, induction over ranges / config sequences / update streams) + regenerated facts + differential correspondence",
     "design_ref": "DESIGN.md section 6 C18",
+}
+
+PROPS["C19"] = {
+    "modules": ["OxiaVerif.Props.C19"],
+    "facts": ["antiAffinityFirstRuleUnion", "antiAffinityLaterRulesIntersectRunningSet", "selectorChainOrder", "selectorRefusesWhenNoCandidate",
+              "replaceInListComparesIdentifiers", "swapShardSelectsAgainstRestOfEnsemble"],
+    "trusted_base": [KERNEL, EXTRACT, CORR, "gods linkedhashset / arraylist as ordered sets and lists",
+                     "nodeBasedBalancer.swapShard is tied by a regenerated fact about its shape; the harness composes the same selector calls on a single.Context (SetSelected + Select)"],
+    "assumptions": ["the tie-break (load ratios, ServerIdx modulo, randomness, map order) is an arbitrary choice function returning a member of the filtered candidate set",
+                    "server identifiers are compared by GetIdentifier (fact); the balancer's quarantine/load bookkeeping is not modelled"],
+    "rule": "generated clusters: 1-8 servers, 0-3 labels with 1-3 values, servers without metadata or missing a label, 0-3 anti-affinity rules with 1-2 labels (strict, occasionally relaxed), RF 1-5, a random load order as tie-break; ensemble selection through the real ensemble.NewSelector(), node swap through single.NewSelector() on the rest of an existing placement, replaceInList through a verif hook. Oracle: RF distinct servers of the cluster; for every strict rule and label no two members share a value; a swap target is outside the ensemble and adds no violation; refusal is an error, never a panic. Non-trivial = an ensemble accepted under rules and one refused.",
+    "level_text": "Machine-checked proof (Lean 4), for every cluster, label assignment, rule list, RF and every choice function: an accepted ensemble has exactly RF distinct servers of the cluster and, for every rule after the first and every label of it, pairwise distinct label values (invariant of the selection loop; fold invariant of the anti-affinity filter); the selection never panics (fact read from the chain) - it yields a full ensemble or refuses; a swap target is never a remaining member and satisfies the rules against them; replaceInList swaps exactly one member. The union semantics of the FIRST rule is modelled as found (fact) with a proved counterexample for multi-label first rules (known finding D-23). Tied to the selectors by differential runs.",
+    "level_note": "Trusted: Lean kernel; extractor rules (union/intersection, chain order, refusal, replaceInList, swapShard shape); gods collections; harness + driver. Known finding D-23 (multi-label first rule); fixed D-31 (panic when RF > servers).",
+    "technique": "Lean 4 proof (fold invariant + loop invariant, arbitrary choice function) + regenerated facts + differential correspondence",
+    "design_ref": "DESIGN.md section 6 C19",
 }
